@@ -1,4 +1,4 @@
-use easy_error::{Error, ResultExt};
+use easy_error::{ensure, Error, ResultExt};
 use serde::{Deserialize, Serialize};
 
 use crate::access_log::AccessLog;
@@ -39,11 +39,27 @@ impl Default for IoParams {
     }
 }
 
+impl IoParams {
+    // the relay allocates one buffer of this size per direction
+    const MAX_BUFFER_SIZE: usize = 1 << 30;
+    pub fn verify(&self) -> Result<(), Error> {
+        ensure!(
+            self.buffer_size > 0 && self.buffer_size <= Self::MAX_BUFFER_SIZE,
+            "ioParams.bufferSize must be between 1 and {}: {}",
+            Self::MAX_BUFFER_SIZE,
+            self.buffer_size
+        );
+        Ok(())
+    }
+}
+
 impl Config {
     pub async fn load(path: &str) -> Result<Self, Error> {
         let s = tokio::fs::read(path).await.context("read file")?;
         let s = String::from_utf8(s).context("parse utf8")?;
-        serde_yaml::from_str(&s).context("parse yaml")
+        let cfg: Self = serde_yaml::from_str(&s).context("parse yaml")?;
+        cfg.io_params.verify()?;
+        Ok(cfg)
     }
 }
 
